@@ -561,3 +561,57 @@ func verifC14LongNames() {
 		vReach("long-ok")
 	}
 }
+
+// verifC14Loops: alias loops of every small shape - a self-alias, a cycle through
+// the origin, a cycle that does not pass through the origin again (o -> b -> c ->
+// b), each also from a host:port origin: the lookup terminates within the bound
+// and falls back to the queried host itself: its own addresses, no HTTPS records.
+func verifC14Loops() {
+	host := "o.example"
+	prefixed := vBool()
+	origin, start := host, host
+	if prefixed {
+		origin, start = host+":8443", "_8443._https."+host
+	}
+	next := map[string]string{}
+	switch vInt(0, 3) {
+	case 0:
+		next[start] = start
+	case 1:
+		next[start] = "b.example"
+		next["b.example"] = start
+	case 2:
+		next[start] = "b.example"
+		next["b.example"] = "c.example"
+		next["c.example"] = "b.example"
+	case 3:
+		next[start] = "b.example"
+		next["b.example"] = "b.example"
+	}
+	z := &vZone{}
+	z.answer = func(q vQuery) (*dns.Message, error) {
+		m := &dns.Message{QR: 1}
+		switch q.typ {
+		case 65:
+			if t, ok := next[q.name]; ok {
+				m.Answer = append(m.Answer, dns.RR{Name: q.name, Type: 65, Class: 1, TTL: 60, Data: dns.HTTPS{Priority: 0, Target: t}})
+			}
+		case 1:
+			m.Answer = append(m.Answer, dns.RR{Name: q.name, Type: 1, Class: 1, TTL: 60, Data: net.IP{10, 0, 0, q.name[0]}})
+		}
+		return m, nil
+	}
+	z.install()
+	r := &Resolver{}
+	res, err := r.Resolve(context.Background(), origin)
+	vAssert(err == nil, "an alias loop is not an error")
+	vAssert(len(z.queries) <= 4+2, "bounded number of queries")
+	vAssert(len(res.HTTPS) == 0, "an alias loop yields no HTTPS records")
+	for _, q := range z.queries {
+		if q.typ != 65 {
+			vAssert(q.name == host, "after an alias loop the addresses of the queried host itself are looked up")
+		}
+	}
+	vAssert(len(res.Address) == 1 && res.Address[0].To4()[3] == 'o', "after an alias loop the queried host's own addresses are returned")
+	vReach("loops")
+}
